@@ -209,6 +209,8 @@ type ConnTap struct {
 	MaxData      [2]uint64 // largest MAX_DATA emitted BY side d
 	MaxStreams   [2][2]uint64
 	IssuedCIDs   [2]map[uint64][]byte // seq -> cid issued by side d
+	ResetTokens  [2]map[uint64][]byte // seq -> stateless reset token issued by side d (server seq 0: transport parameter)
+	LastDCID     [2][]byte            // DCID of the last 1-RTT packet sent by side d
 	RetiredSeqs  [2]map[uint64]bool   // seqs (of the peer's CIDs) retired by side d
 	RetirePrior  [2]uint64
 	Closes       [2][]Frame
@@ -249,6 +251,7 @@ func (w *Wire) newConn(clientAddr string, version uint32, dcid, scid []byte) *Co
 		c.cids[d] = map[string]bool{}
 		c.Streams[d] = map[uint64]*StreamView{}
 		c.IssuedCIDs[d] = map[uint64][]byte{}
+		c.ResetTokens[d] = map[uint64][]byte{}
 		c.RetiredSeqs[d] = map[uint64]bool{}
 		for s := 0; s < 3; s++ {
 			c.largest[d][s] = -1
@@ -609,6 +612,7 @@ func (c *ConnTap) openShort(dir Dir, rp *RawPacket, pi *PacketInfo) {
 			c.oneRTT[dir] = gens[:cur+1]
 		}
 		c.Counts[fmt.Sprintf("pkt_%s_1rtt_phase", dir)]++
+		c.LastDCID[dir] = append([]byte{}, rp.DCID...)
 		return
 	}
 	c.oneRTT[dir] = gens[:cur+1]
@@ -710,6 +714,7 @@ func (c *ConnTap) frame(dir Dir, kind Kind, pi *PacketInfo, f *Frame) {
 		c.stream(dir, f.StreamID).ResetSeen = true
 	case f.Type == FtNewConnID:
 		c.IssuedCIDs[dir][f.Seq] = append([]byte(nil), f.CID...)
+		c.ResetTokens[dir][f.Seq] = append([]byte(nil), f.ResetToken...)
 		c.cids[peer][string(f.CID)] = true // datagrams travelling towards dir's side may use it... (peer sends to it)
 		if f.RetirePriorTo > c.RetirePrior[dir] {
 			c.RetirePrior[dir] = f.RetirePriorTo
@@ -807,6 +812,9 @@ func (c *ConnTap) parseCrypto(dir Dir, lvl int) {
 				case ExtQUICTransportParams, 0xffa5:
 					if l, err := ParseTransportParameters(e.Data); err == nil {
 						c.ServerTP = NewTPSet(l)
+						if t := c.ServerTP.Bytes(TPStatelessResetToken); len(t) == 16 {
+							c.ResetTokens[S2C][0] = append([]byte(nil), t...)
+						}
 					}
 				case ExtALPN:
 					if a := ParseALPN(e.Data); len(a) > 0 {
@@ -820,8 +828,8 @@ func (c *ConnTap) parseCrypto(dir Dir, lvl int) {
 
 // Mod describes what the network did to a datagram before delivering it.
 type Mod struct {
-	FlipAt   int // -1: none
-	TruncTo  int // -1: none
+	FlipAt  int // -1: none
+	TruncTo int // -1: none
 }
 
 // NoMod is an unmodified delivery.
@@ -884,3 +892,42 @@ func (w *Wire) Snapshot() []*ConnTap {
 // Lock/Unlock give monitors consistent access to tap state while the world is running.
 func (w *Wire) Lock()   { w.mu.Lock() }
 func (w *Wire) Unlock() { w.mu.Unlock() }
+
+// Describe returns one line per datagram of the connection (at most the last n), for traces.
+func (c *ConnTap) Describe(n int) []string {
+	c.w.mu.Lock()
+	defer c.w.mu.Unlock()
+	ds := c.Datagrams
+	if n > 0 && len(ds) > n {
+		ds = ds[len(ds)-n:]
+	}
+	var out []string
+	for _, d := range ds {
+		s := fmt.Sprintf("%9.3fms %s #%d %dB", float64(d.Time)/1e6, d.Dir, d.Ordinal, len(d.Raw))
+		for _, p := range d.Packets {
+			s += fmt.Sprintf(" [%s pn=%d", p.Kind, p.PN)
+			if !p.Opened {
+				s += " UNOPENED:" + p.Err
+			}
+			for _, f := range p.Frames {
+				switch {
+				case f.IsStream():
+					s += fmt.Sprintf(" STREAM(%d,%d+%d,fin=%v)", f.StreamID, f.Offset, len(f.Data), f.Fin)
+				case f.Type == FtAck || f.Type == FtAckECN:
+					s += fmt.Sprintf(" ACK%v", f.Ranges)
+				case f.Type == FtConnClose || f.Type == FtConnCloseApp:
+					s += fmt.Sprintf(" %s(type=%#x,code=%#x,ft=%#x,%q)", f.Name(), f.Type, f.ErrorCode, f.FrameType, f.Reason)
+				case f.Type == FtCrypto:
+					s += fmt.Sprintf(" CRYPTO(%d+%d)", f.Offset, len(f.Data))
+				case f.Type == FtPadding:
+					s += fmt.Sprintf(" PADDING(%d)", f.Count)
+				default:
+					s += " " + f.Name()
+				}
+			}
+			s += "]"
+		}
+		out = append(out, s)
+	}
+	return out
+}
